@@ -334,3 +334,20 @@ package server
 //@     if err2 != nil || sesh == nil { return }
 //@     assert(registered(panel, user))
 //@ }
+
+// InitState (C07): who is authorised without the database. With no admin UID and no bypass UID
+// configured, nobody is - in particular not the all-zero UID.
+//@ func parseRedirAddr
+//@   flag trusted
+//@ func parseProxyBook
+//@   flag trusted
+//@ func MakeUserPanel
+//@   flag trusted
+//@   ensures ret0 != nil && fresh(ret0)
+//@ func github.com/cbeuw/Cloak/internal/server/usermanager.MakeLocalManager
+//@   flag trusted
+//@ func InitState
+//@   ensures nobodyBypassesByDefault: err == nil && len(preParse.AdminUID) == 0 && len(preParse.BypassUID) == 0 ==> sta != nil && mapLen(sta.BypassUID) == 0
+//@   ensures adminConfigured: err == nil ==> sameSlice(sta.AdminUID, preParse.AdminUID)
+//@   flag noframe
+//@   loop 0 invariant none: sta != nil && sta.BypassUID != nil && fresh(sta) && (len(preParse.BypassUID) == 0 ==> mapLen(sta.BypassUID) == 0)
